@@ -63,12 +63,12 @@ func BuildMSM(t *rt.Tape, sp MSMSpec) []byte {
 	} else {
 		put(1, 0)
 	}
-	put(3, 0)  // IODS
-	put(7, 0)  // reserved
-	put(2, 0)  // clock steering
-	put(2, 0)  // external clock
-	put(1, 0)  // smoothing
-	put(3, 0)  // smoothing interval
+	put(3, 0) // IODS
+	put(7, 0) // reserved
+	put(2, 0) // clock steering
+	put(2, 0) // external clock
+	put(1, 0) // smoothing
+	put(3, 0) // smoothing interval
 	put(64, sp.SatMask)
 	put(32, uint64(sp.SigMask))
 	for i := 0; i < ncm; i++ {
